@@ -39,6 +39,9 @@ type Case struct {
 	// for each of them again while the Close callers run (the library reports a closed scope it finds
 	// under a requested key on the caller's goroutine): the pending values were recorded before the
 	// root's Close was called, so they too must be delivered before Close returns, never after.
+	// Dual: ONE reporter object is configured in both roles (Reporter and CachedReporter); it is still
+	// one reporter: flushed at the end and closed exactly once
+	Dual      bool  `json:"dual,omitempty"`
 	PreClosed []int `json:"preClosed,omitempty"`
 	Reacquire bool  `json:"reacquire,omitempty"`
 	Sched     []int `json:"sched"`
@@ -76,6 +79,7 @@ func gen(t *rapid.T) Case {
 	for i := 0; i < nr; i++ {
 		c.Recorders = append(c.Recorders, incs(5, "nincs", true))
 	}
+	c.Dual = rapid.IntRange(0, 5).Draw(t, "dual") == 0
 	c.Closers = rapid.SampledFrom([]int{1, 1, 1, 2, 3}).Draw(t, "closers")
 	c.After = rapid.Bool().Draw(t, "after")
 	c.Sched = sgen.Choices(t, 200, nr+c.Closers+3)
@@ -102,7 +106,15 @@ func run(c Case) (pbt.Outcome, error) {
 	if c.Closer == 2 {
 		cerr = errReporterClose
 	}
-	if c.Cached {
+	if c.Dual {
+		d := &rec.Dual{S: &rec.Stats{L: log}, C: &rec.Cached{L: log}}
+		if c.Closer == 0 {
+			opts.Reporter, opts.CachedReporter = d, d
+		} else {
+			dc := rec.DualCloser{Dual: d, Err: cerr}
+			opts.Reporter, opts.CachedReporter = dc, dc
+		}
+	} else if c.Cached {
 		r := &rec.Cached{L: log}
 		if c.Closer == 0 {
 			opts.CachedReporter = r
@@ -436,6 +448,9 @@ func run(c Case) (pbt.Outcome, error) {
 	}
 	if c.Reacquire {
 		out.Classes = append(out.Classes, "closed-subscope-requested-again-during-close")
+	}
+	if c.Dual {
+		out.Classes = append(out.Classes, "one-reporter-object-in-both-roles")
 	}
 	if res.Detaches > 0 {
 		out.Classes = append(out.Classes, "close-waited-for-loop")
